@@ -12,7 +12,8 @@ PROP = dict(
         "front_end_lossless_refuted_by_nul", "glyph_map_split_refuted",
         "glyph_map_split_lossless_without_double_hyphen", "positions_consistent",
         "err_range_in_source", "err_range_on_char_boundaries", "err_before_ws_in_source_iff",
-        "err_before_ws_refuted", "include_validate_terminates", "include_depth_limit_refuted",
+        "err_before_ws_refuted", "include_validate_terminates", "include_assembly_terminates",
+        "include_cycle_is_reported", "include_depth_limit_refuted",
     ],
     prelude="Require Import FV.C13.Model FV.C13.Tie.\nFrom Coq Require Import List NArith Bool Arith.\nOpen Scope nat_scope.",
     harness_args=lambda tier, seed: ["--seed", str(seed), "--n", str(N[tier]), "--parse", str(NPARSE[tier])],
